@@ -940,8 +940,21 @@ def op_derived_trigger(g, dv, protected):
   if not srcs:
     return None
   a = g.rng.choice(srcs)
+  # The record is added to ANOTHER table, and that table adds none in turn: a formula that adds a
+  # record to a table whose records run such a formula again is a program that need not terminate
+  # (each new record asks for one more), which is not the engine's to fix.
+  def adds(tbl):
+    return any("lookupOrAddDerived" in (x.formula or "") for x in tbl.cols.values())
+  fed = set()
+  for tbl in dv.tables.values():
+    for x in tbl.cols.values():
+      if "lookupOrAddDerived" in (x.formula or ""):
+        fed.add(x.formula.split(".lookupOrAddDerived")[0].split()[-1])
+  if t.tableId in fed:
+    return None
   tgts = [(tt, c) for tt in data_tables(dv) for c in tt.user_cols()
-          if not c.isFormula and not c.formula and c.pure == a.pure and (tt is not t or c is not a)]
+          if tt is not t and not adds(tt)
+          and not c.isFormula and not c.formula and c.pure == a.pure]
   if not tgts:
     return None
   tt, c = g.rng.choice(tgts)
